@@ -20,35 +20,38 @@ structure Mask where
   pqs : Bool := false
   held : Bool := false
   blocked : Bool := false
+  prio : Bool := false
   deriving DecidableEq, Repr
 
 def Mask.le (a b : Mask) : Bool :=
   (!a.res || b.res) && (!a.pools || b.pools) && (!a.bufs || b.bufs) && (!a.oqs || b.oqs) && (!a.pqs || b.pqs) &&
-  (!a.held || b.held) && (!a.blocked || b.blocked)
+  (!a.held || b.held) && (!a.blocked || b.blocked) && (!a.prio || b.prio)
 
 @[reducible] def Fp (m : Mask) (w w' : World) : Prop :=
   (m.res = false → w'.res = w.res) ∧ (m.pools = false → w'.pools = w.pools) ∧ (m.bufs = false → w'.bufs = w.bufs) ∧
   (m.oqs = false → w'.oqs = w.oqs) ∧ (m.pqs = false → w'.pqs = w.pqs) ∧
   w'.now = w.now ∧ (TimeOk w.ev → TimeOk w'.ev) ∧ w'.procs.size = w.procs.size ∧
   (m.held = false → ∀ p, (w'.proc p).held = (w.proc p).held) ∧
-  (m.blocked = false → ∀ p, (w'.proc p).blocked = (w.proc p).blocked)
+  (m.blocked = false → ∀ p, (w'.proc p).blocked = (w.proc p).blocked) ∧
+  (m.prio = false → ∀ p, (w'.proc p).prio = (w.proc p).prio)
 
 theorem Fp.refl (m : Mask) (w : World) : Fp m w w :=
-  ⟨fun _ => rfl, fun _ => rfl, fun _ => rfl, fun _ => rfl, fun _ => rfl, rfl, id, rfl, fun _ _ => rfl, fun _ _ => rfl⟩
+  ⟨fun _ => rfl, fun _ => rfl, fun _ => rfl, fun _ => rfl, fun _ => rfl, rfl, id, rfl, fun _ _ => rfl, fun _ _ => rfl,
+    fun _ _ => rfl⟩
 
 theorem Fp.trans {m : Mask} {a b c : World} (h1 : Fp m a b) (h2 : Fp m b c) : Fp m a c := by
-  obtain ⟨r1, p1, b1, o1, k1, n1, t1, s1, e1, f1⟩ := h1
-  obtain ⟨r2, p2, b2, o2, k2, n2, t2, s2, e2, f2⟩ := h2
+  obtain ⟨r1, p1, b1, o1, k1, n1, t1, s1, e1, f1, g1⟩ := h1
+  obtain ⟨r2, p2, b2, o2, k2, n2, t2, s2, e2, f2, g2⟩ := h2
   exact ⟨fun h => (r2 h).trans (r1 h), fun h => (p2 h).trans (p1 h), fun h => (b2 h).trans (b1 h),
     fun h => (o2 h).trans (o1 h), fun h => (k2 h).trans (k1 h), n2.trans n1, fun h => t2 (t1 h),
-    s2.trans s1, fun h p => (e2 h p).trans (e1 h p), fun h p => (f2 h p).trans (f1 h p)⟩
+    s2.trans s1, fun h p => (e2 h p).trans (e1 h p), fun h p => (f2 h p).trans (f1 h p), fun h p => (g2 h p).trans (g1 h p)⟩
 
 theorem Fp.mono {m m' : Mask} {w w' : World} (hm : m.le m' = true) (h : Fp m w w') : Fp m' w w' := by
-  obtain ⟨r1, p1, b1, o1, k1, n1, t1, s1, e1, f1⟩ := h
+  obtain ⟨r1, p1, b1, o1, k1, n1, t1, s1, e1, f1, g1⟩ := h
   simp only [Mask.le, Bool.and_eq_true, Bool.or_eq_true, Bool.not_eq_true'] at hm
-  obtain ⟨⟨⟨⟨⟨⟨hr, hp⟩, hb⟩, ho⟩, hk⟩, hh⟩, hbl⟩ := hm
+  obtain ⟨⟨⟨⟨⟨⟨⟨hr, hp⟩, hb⟩, ho⟩, hk⟩, hh⟩, hbl⟩, hpr⟩ := hm
   refine ⟨fun h => r1 ?_, fun h => p1 ?_, fun h => b1 ?_, fun h => o1 ?_, fun h => k1 ?_, n1, t1, s1, fun h => e1 ?_,
-    fun h => f1 ?_⟩
+    fun h => f1 ?_, fun h => g1 ?_⟩
   · rcases hr with h' | h'
     · exact h'
     · rw [h] at h'; cases h'
@@ -70,14 +73,17 @@ theorem Fp.mono {m m' : Mask} {w w' : World} (hm : m.le m' = true) (h : Fp m w w
   · rcases hbl with h' | h'
     · exact h'
     · rw [h] at h'; cases h'
+  · rcases hpr with h' | h'
+    · exact h'
+    · rw [h] at h'; cases h'
 
 theorem Same.fp (m : Mask) {w w' : World} (h : Same w w') : Fp m w w' := by
-  obtain ⟨r1, p1, b1, o1, k1, n1, t1, s1, e1, f1⟩ := h
-  exact ⟨fun _ => r1, fun _ => p1, fun _ => b1, fun _ => o1, fun _ => k1, n1, t1, s1, fun _ => e1, fun _ => f1⟩
+  obtain ⟨r1, p1, b1, o1, k1, n1, t1, s1, e1, f1, g1⟩ := h
+  exact ⟨fun _ => r1, fun _ => p1, fun _ => b1, fun _ => o1, fun _ => k1, n1, t1, s1, fun _ => e1, fun _ => f1, fun _ => g1⟩
 
 theorem Fp.same {w w' : World} (h : Fp {} w w') : Same w w' := by
-  obtain ⟨r1, p1, b1, o1, k1, n1, t1, s1, e1, f1⟩ := h
-  exact ⟨r1 rfl, p1 rfl, b1 rfl, o1 rfl, k1 rfl, n1, t1, s1, e1 rfl, f1 rfl⟩
+  obtain ⟨r1, p1, b1, o1, k1, n1, t1, s1, e1, f1, g1⟩ := h
+  exact ⟨r1 rfl, p1 rfl, b1 rfl, o1 rfl, k1 rfl, n1, t1, s1, e1 rfl, f1 rfl, g1 rfl⟩
 
 theorem foldl_fp {α : Type} (m : Mask) (f : World → α → World) (h : ∀ w a, Fp m w (f w a)) (l : List α) (w : World) :
     Fp m w (l.foldl f w) := by
@@ -101,13 +107,15 @@ macro "fp_same " t:term : tactic => `(tactic| refine Fp.trans ?_ (Same.fp _ $t))
 @[reducible] def mEnd : Mask := { res := true, pools := true, held := true, blocked := true }
 @[reducible] def mBlocked : Mask := { blocked := true }
 @[reducible] def mEndNB : Mask := { res := true, pools := true, held := true }
-@[reducible] def mHeldB : Mask := { held := true, blocked := true }
+@[reducible] def mHeldB : Mask := { held := true, blocked := true, prio := true }
+@[reducible] def mPoolsPrio : Mask := { pools := true, prio := true }
+@[reducible] def mPrio : Mask := { prio := true }
 @[reducible] def mResHeldB : Mask := { res := true, held := true, blocked := true }
 @[reducible] def mPoolsHeldB : Mask := { pools := true, held := true, blocked := true }
 @[reducible] def mBufsB : Mask := { bufs := true, blocked := true }
 @[reducible] def mOqsB : Mask := { oqs := true, blocked := true }
 @[reducible] def mPqsB : Mask := { pqs := true, blocked := true }
-attribute [simp] mRes mPools mBufs mOqs mPqs mHeld mResHeld mPoolsHeld mEnd mBlocked mHeldB mResHeldB mPoolsHeldB mBufsB mOqsB mPqsB mEndNB
+attribute [simp] mRes mPools mBufs mOqs mPqs mHeld mResHeld mPoolsHeld mEnd mBlocked mHeldB mResHeldB mPoolsHeldB mBufsB mOqsB mPqsB mEndNB mPoolsPrio mPrio
 
 /-! ### primitives -/
 
@@ -128,7 +136,8 @@ theorem removeHeld_proc (w : World) (p q : Pid) (h : HoldRef) :
 
 @[simp] theorem removeHeld_fp (w : World) (p : Pid) (h : HoldRef) : Fp mHeld w (removeHeld w p h).1 :=
   ⟨fun _ => rfl, fun _ => rfl, fun _ => rfl, fun _ => rfl, fun _ => rfl, rfl, id, by simp [removeHeld],
-    fun h => absurd h (by decide), fun _ q => by unfold removeHeld; exact modProc_blocked _ _ _ _ (fun _ => rfl)⟩
+    fun h => absurd h (by decide), fun _ q => by unfold removeHeld; exact modProc_blocked _ _ _ _ (fun _ => rfl),
+    fun _ q => by unfold removeHeld; exact modProc_prio _ _ _ _ (fun _ => rfl)⟩
 
 @[simp] theorem recordRes_fp (w : World) (r : Nat) : Fp mRes w (recordRes w r) := by
   unfold recordRes
@@ -188,29 +197,35 @@ open CimbaModel.HashHeap (HTag Item Order HH)
 /-- footprint of a composite function from the footprints of its parts: split every branch, rewrite with the
     `simp` footprint lemmas (the `TimeOk` chain needs a deeper side-condition search than the default) -/
 macro "fp_auto" : tactic => `(tactic|
-  (refine ⟨?_, ?_, ?_, ?_, ?_, ?_, ?_, ?_, ?_, ?_⟩ <;> intros <;> (try dsimp only) <;> (repeat' split) <;>
+  (refine ⟨?_, ?_, ?_, ?_, ?_, ?_, ?_, ?_, ?_, ?_, ?_⟩ <;> intros <;> (try dsimp only) <;> (repeat' split) <;>
     simp (config := { maxDischargeDepth := 12 }) [*] at *))
 
 @[simp] theorem modProc_fp (w : World) (p : Pid) (f : Proc → Proc) : Fp mHeldB w (w.modProc p f) := by
   simp [Fp, World.now, World.modProc]
 
 /-- a process update that may change `held` but not `blocked` -/
-@[simp] theorem modProc_fp_held (w : World) (p : Pid) (f : Proc → Proc) (hb : ∀ x, (f x).blocked = x.blocked) :
-    Fp mHeld w (w.modProc p f) := by
+@[simp] theorem modProc_fp_held (w : World) (p : Pid) (f : Proc → Proc) (hb : ∀ x, (f x).blocked = x.blocked)
+    (hp : ∀ x, (f x).prio = x.prio) : Fp mHeld w (w.modProc p f) := by
   refine ⟨fun _ => rfl, fun _ => rfl, fun _ => rfl, fun _ => rfl, fun _ => rfl, rfl, id, by simp, fun h => absurd h (by decide),
-    fun _ q => modProc_blocked w p q f hb⟩
+    fun _ q => modProc_blocked w p q f hb, fun _ q => modProc_prio w p q f hp⟩
+
+/-- a process update that may change `prio` only -/
+theorem modProc_fp_prio (w : World) (p : Pid) (f : Proc → Proc) (hf : ∀ x, (f x).held = x.held)
+    (hb : ∀ x, (f x).blocked = x.blocked) : Fp mPrio w (w.modProc p f) :=
+  ⟨fun _ => rfl, fun _ => rfl, fun _ => rfl, fun _ => rfl, fun _ => rfl, rfl, id, by simp,
+    fun _ q => modProc_held w p q f hf, fun _ q => modProc_blocked w p q f hb, fun h => absurd h (by decide)⟩
 
 /-- a process update that may change `blocked` but not `held` -/
-theorem modProc_fp_blocked (w : World) (p : Pid) (f : Proc → Proc) (hf : ∀ x, (f x).held = x.held) :
-    Fp mBlocked w (w.modProc p f) :=
+theorem modProc_fp_blocked (w : World) (p : Pid) (f : Proc → Proc) (hf : ∀ x, (f x).held = x.held)
+    (hp : ∀ x, (f x).prio = x.prio) : Fp mBlocked w (w.modProc p f) :=
   ⟨fun _ => rfl, fun _ => rfl, fun _ => rfl, fun _ => rfl, fun _ => rfl, rfl, id, by simp,
-    fun _ q => modProc_held w p q f hf, fun h => absurd h (by decide)⟩
+    fun _ q => modProc_held w p q f hf, fun h => absurd h (by decide), fun _ q => modProc_prio w p q f hp⟩
 
 /-- `block`: only the `blocked` field of the caller changes -/
 @[simp] theorem block_fp (w : World) (p : Pid) (f : Frame) : Fp mBlocked w (block w p f).1 := by
   unfold block
   refine ⟨fun _ => rfl, fun _ => rfl, fun _ => rfl, fun _ => rfl, fun _ => rfl, rfl, id, by simp,
-    fun _ q => modProc_held w p q _ (fun _ => rfl), fun h => absurd h (by decide)⟩
+    fun _ q => modProc_held w p q _ (fun _ => rfl), fun h => absurd h (by decide), fun _ q => modProc_prio w p q _ (fun _ => rfl)⟩
 
 @[simp] theorem grab_fp (w : World) (r : Nat) (p : Pid) : Fp mResHeld w (grab w r p) := by
   unfold grab; fp_auto
@@ -231,7 +246,8 @@ theorem modProc_fp_blocked (w : World) (p : Pid) (f : Proc → Proc) (hf : ∀ x
 @[simp] theorem dropResources_fp (w : World) (p : Pid) : Fp mEndNB w (dropResources w p) := by
   unfold dropResources
   dsimp only
-  refine Fp.trans (Fp.mono (by decide) (modProc_fp_held w p _ ?_)) (foldl_fp _ _ ?_ _ _)
+  refine Fp.trans (Fp.mono (by decide) (modProc_fp_held w p _ ?_ ?_)) (foldl_fp _ _ ?_ _ _)
+  · intro _; rfl
   · intro _; rfl
   intro w h
   cases h with
